@@ -299,11 +299,10 @@ Proof.
 Qed.
 
 Lemma exec_drop_table d n ct :
-  find_ct n (db_tables d) = Some ct -> ct_rows ct = [] ->
+  db_fk d = false -> find_ct n (db_tables d) = Some ct ->
   exec d (SDropTable n) = Ok (set_tables d (remove_ct n (db_tables d))).
 Proof.
-  intros F R. simpl. unfold drop_table. rewrite F, R. rewrite implicit_delete_nil.
-  destruct (db_fk d); reflexivity.
+  intros FK F. simpl. unfold drop_table. rewrite F, FK. reflexivity.
 Qed.
 
 (** ** the rebuild group: CREATE new_t; INSERT..SELECT; DROP t; RENAME new_t TO t; CREATE INDEX... *)
@@ -440,6 +439,7 @@ Definition no_refs (n : str) (t : table) : Prop := forall f, In f (t_fks t) -> f
 Lemma exec_rebuild d bx ct0 cold ins :
   let t := x_name bx in
   let new_n := NEW_ ++ t in
+  db_fk d = false ->
   NoDup (all_names (db_tables d)) ->
   find_ct t (db_tables d) = Some cold -> ct_rows cold = [] ->
   new_ctable (strip_idx bx) [] = Ok ct0 ->
@@ -453,7 +453,7 @@ Lemma exec_rebuild d bx ct0 cold ins :
               ++ [SDropTable t; SRenameTable new_n t] ++ map (SCreateIndex t) (t_idx (x_t bx)))
   = Ok (set_tables d (remove_ct t (db_tables d) ++ [add_idx (t_idx (x_t bx)) ct0])).
 Proof.
-  intros t new_n ND FO RO HC HNEW HREF HREFB HCOPY HD NDI HF.
+  intros t new_n FKOFF ND FO RO HC HNEW HREF HREFB HCOPY HD NDI HF.
   destruct (new_ctable_shape _ _ HC) as [pk [EP [E0 ER]]].
   assert (NDT : NoDup (map ct_name (db_tables d))) by (apply all_names_NoDup_tables; exact ND).
   assert (NE : new_n <> t).
@@ -484,7 +484,7 @@ Proof.
     - unfold cnew. exact HCOPY. }
   rewrite EI.
   (* DROP TABLE t *)
-  rewrite exec_all_app. cbn [exec_all]. rewrite (exec_drop_table d1 t cold F1old RO).
+  rewrite exec_all_app. cbn [exec_all]. rewrite (exec_drop_table d1 t cold FKOFF F1old).
   assert (Tin : In t (map ct_name (db_tables d))).
   { apply find_ct_in in FO. destruct FO as [H1 H2]. rewrite <- H2. apply in_map. exact H1. }
   cbn [db_tables d1 set_tables]. rewrite (remove_ct_app_l t _ [cnew] Tin).
